@@ -270,12 +270,9 @@ Qed.
 (* ------------------------------------------------------------------ *)
 (* never an error *)
 
-Definition byte_range (n : num) : bool := (Z.leb 0 (nnum n) && Z.ltb (nnum n) 256)%bool.
-
-(* the expected value is statically known and is not an int outside range(256) *)
-Definition in_safe_pv (v : pv) : bool :=
-  match v with PNum n => negb (int_like n) || byte_range n | _ => true end.
-
+(* well-formed expected values: a literal, a single-level Meta reference, an enum
+   reference that resolves.  (An ill-formed reference raises when it is resolved, by
+   design: ValueError / AttributeError / KeyError - see ill_formed_raises.) *)
 Definition safe_value (x : value) : bool :=
   match x with
   | VLit _ => true
@@ -284,26 +281,10 @@ Definition safe_value (x : value) : bool :=
   | _ => false
   end.
 
-Definition in_safe_value (x : value) : bool :=
-  match x with
-  | VLit v => in_safe_pv v
-  | VEnum _ _ (ERes v) => in_safe_pv v
-  | _ => false
-  end.
-
-(* excludes exactly: ill-formed expected values (multi-level Meta reference,
-   unresolvable enum reference), `~=` with an expected value that is (or, for a
-   Meta reference, may be) an int outside range(256), and `&` on a Meta selector *)
 Definition safe_leaf (s0 : str) (ov : option (op * value)) : bool :=
   match ov with
   | None => true
-  | Some (o, x) =>
-      safe_value x &&
-      match o with
-      | OIn => in_safe_value x
-      | OBand => negb (seq_eqb s0 META)
-      | _ => true
-      end
+  | Some (_, x) => safe_value x
   end.
 
 Fixpoint safe (f : fexp) : bool :=
@@ -313,36 +294,16 @@ Fixpoint safe (f : fexp) : bool :=
   | And a b | Or a b => safe a && safe b
   end.
 
-Lemma py_in_shape : forall a b,
-  (exists r, py_in a b = OB r) \/
-  (py_in a b = OX XValue /\ exists n, b = PNum n /\ int_like n = true /\ byte_range n = false).
+(* the operator table is total: whatever the types of field and expected value,
+   the answer is a bool *)
+Lemma apply_op_total : forall o a b, exists r, apply_op o a b = OB r.
 Proof.
-  intros a b. unfold py_in.
-  destruct a as [|x|s|j s|l|l r|r]; destruct b as [|y|t|j' t|l'|l' r'|r']; eauto;
-    destruct j; eauto;
-    (destruct (int_like y) eqn:Hi; [|eauto]; fold (byte_range y);
-     destruct (byte_range y) eqn:Hb; [eauto|]; right; split; [reflexivity|]; eauto).
-Qed.
-
-Lemma apply_op_shape : forall o a b,
-  (exists r, apply_op o a b = OB r) \/
-  (o = OBand /\ exists z, apply_op o a b = OI z) \/
-  (o = OIn /\ apply_op o a b = OX XValue /\ exists n, b = PNum n /\ int_like n = true /\ byte_range n = false).
-Proof.
-  intros o a b. destruct o.
-  - left. cbn. eauto.
-  - left. cbn. eauto.
-  - left. cbn. destruct a; eauto.
-  - left. cbn. destruct a; eauto.
-  - assert (Hs : apply_op OIn a b = OB false \/ apply_op OIn a b = py_in a b)
-      by (destruct a; cbn; auto).
-    destruct Hs as [Hs|Hs]; rewrite Hs; [eauto|].
-    destruct (py_in_shape a b) as [[r Hr]|[Hx Hn]]; [left; eauto|right; right; eauto].
-  - left. cbn. eauto.
-  - left. cbn. eauto.
-  - left. cbn. eauto.
-  - left. cbn. eauto.
-  - cbn [apply_op]. unfold py_band. destruct a as [|x| | | | |]; eauto. destruct b as [|y| | | | |]; eauto.
+  intros o a b. destruct o; cbn [apply_op]; eauto; try (destruct a; eauto; fail).
+  - destruct a; eauto; unfold py_in;
+      destruct b as [|y| |j'| | |]; eauto; try (destruct jank; eauto; fail);
+      try (destruct jank; destruct (int_like y); eauto;
+           destruct ((0 <=? nnum y)%Z && (nnum y <? 256)%Z); eauto).
+  - unfold py_band. destruct a as [|x| | | | |]; eauto. destruct b as [|y| | | | |]; eauto.
     destruct (nkind x), (nkind y); eauto.
 Qed.
 
@@ -354,35 +315,17 @@ Proof.
   - destruct r; try discriminate. eauto.
 Qed.
 
-Lemma resolve_in_safe : forall e x v,
-  safe_value x = true -> in_safe_value x = true -> resolve e x = inr v -> in_safe_pv v = true.
-Proof.
-  intros e x v H1 H2 H3. destruct x as [w|ns|en fn r]; cbn in *.
-  - now inversion H3; subst.
-  - discriminate.
-  - destruct r; try discriminate. now inversion H3; subst.
-Qed.
-
-(* under safe_leaf, _val_matches gives a bool, or an int for `&` *)
 Lemma val_matches_safe : forall e s0 ov v,
-  safe_leaf s0 ov = true ->
-  (exists r, val_matches e ov v = OB r) \/
-  (exists z x, ov = Some (OBand, x) /\ val_matches e ov v = OI z).
+  safe_leaf s0 ov = true -> exists r, val_matches e ov v = OB r.
 Proof.
   intros e s0 ov v H. unfold val_matches. destruct ov as [[o x]|]; [|eauto].
-  cbn [safe_leaf] in H. apply andb_prop in H as [Hs Ho].
-  destruct (resolve_safe e x Hs) as [w Hw]. rewrite Hw.
-  destruct (apply_op_shape o (norm_val v) w) as [[r Hr]|[[-> [z Hz]]|[-> [Hx [n [-> [Hi Hb]]]]]]].
-  - eauto.
-  - right. eauto.
-  - exfalso. pose proof (resolve_in_safe e x _ Hs Ho Hw) as Hp. cbn in Hp.
-    rewrite Hi, Hb in Hp. discriminate.
+  cbn [safe_leaf] in H. destruct (resolve_safe e x H) as [w ->]. apply apply_op_total.
 Qed.
 
 Lemma truth_of_safe : forall e s0 ov v,
   safe_leaf s0 ov = true -> exists b, truth_of (val_matches e ov v) = HOk b.
 Proof.
-  intros e s0 ov v H. destruct (val_matches_safe e s0 ov v H) as [[r ->]|[z [x [_ ->]]]]; cbn; eauto.
+  intros e s0 ov v H. destruct (val_matches_safe e s0 ov v H) as [r ->]. cbn. eauto.
 Qed.
 
 Lemma scan_keys_safe : forall e s0 kp ov items,
@@ -417,9 +360,7 @@ Proof.
   destruct rest as [|n rest'].
   - inversion Hb; subst. destruct ov; eauto.
   - destruct (seq_eqb s0 META) eqn:Hm; [|discriminate].
-    assert (Hv : forall v, exists b, val_matches e ov v = OB b).
-    { intros v. destruct (val_matches_safe e s0 ov v H) as [Hr|[z [x [-> _]]]]; [assumption|].
-      cbn in H. rewrite Hm in H. apply andb_prop in H as [_ H]. discriminate. }
+    pose proof (fun v => val_matches_safe e s0 ov v H) as Hv.
     destruct rest' as [|k [|? ?]]; [| |discriminate].
     + inversion Hb; subst. apply Hv.
     + inversion Hb; subst. destruct (get_meta e n) as [w|ci d rd]; [eauto|].
@@ -475,35 +416,37 @@ Definition w_entry_meta : entry :=
   mkEntry KLLUDP FOO LLUDP [] [[(AGENTLOCAL, MV (int_ 6))]] [].
 Definition w_filter_band : fexp := Leaf META [AGENTLOCAL] (Some (OBand, VLit (int_ 4))).
 
-Lemma never_error_refuted :
-  (* well-formed filters (literal expected values) on which evaluation raises *)
-  safe_value (VLit (int_ 256)) = true /\
-  eval true w_filter_in w_entry_bytes = Err XValue /\
-  eval false w_filter_in w_entry_bytes = Err XValue /\
-  eval true w_filter_band w_entry_meta = Err XType /\
-  eval false w_filter_band w_entry_meta = Err XType.
+(* the two comparisons that used to raise are simply false / true now *)
+Lemma former_errors :
+  eval true w_filter_in w_entry_bytes = Ok false [] /\
+  eval false w_filter_in w_entry_bytes = Ok false [] /\
+  eval true w_filter_band w_entry_meta = Ok true [] /\
+  eval false w_filter_band w_entry_meta = Ok true [].
 Proof. vm_compute. repeat split. Qed.
 
-(* `!=` is not the complement of `==`: Vector3(0,1,0) satisfies both against (0, 1, 0),
-   and JankStringyBytes(b"abc") satisfies neither against 3 *)
+(* an ill-formed expected value (unknown enum) raises when a field is compared with it *)
+Definition w_filter_bogus : fexp := Leaf FOO [BAR; BAZ] (Some (OEq, VEnum [] [] ENoEnum)).
+Lemma ill_formed_raises :
+  safe w_filter_bogus = false /\
+  eval true w_filter_bogus w_entry_bytes = Err XAttr /\ eval false w_filter_bogus w_entry_bytes = Err XAttr.
+Proof. vm_compute. repeat split. Qed.
+
+(* `!=` is the complement of `==` for every pair of values *)
+Lemma ne_complement : forall a b,
+  apply_op OEq a b = OB (py_eq a b) /\ apply_op ONe a b = OB (negb (py_eq a b)).
+Proof. intros. split; reflexivity. Qed.
+
 Definition n_ (z : Z) : num := mkNum KI z 1.
 Definition f_ (z : Z) : num := mkNum KF z 1.
-Lemma ne_not_complement :
-  let v := PCoord [f_ 0; f_ 1; f_ 0] [] in
-  let t := PTup [n_ 0; n_ 1; n_ 0] in
-  let j := PBytes (Some [97; 98; 99]%N) [97; 98; 99]%N in
-  apply_op OEq v t = OB true /\ apply_op ONe v t = OB true /\
-  apply_op OEq j (int_ 3) = OB false /\ apply_op ONe j (int_ 3) = OB false.
-Proof. vm_compute. repeat split. Qed.
 
-(* with full evaluation an exception can be raised where short-circuit
-   evaluation answers: the converse of sc_of_full does not hold *)
+(* with full evaluation an (ill-formed) operand is evaluated that short-circuit
+   evaluation skips: the converse of sc_of_full does not hold *)
 Definition w_entry_two : entry :=
   mkEntry KLLUDP FOO LLUDP [] [[]]
     [(BAR, [[mkVar BAR (PTup [n_ 256]) None; mkVar BAZ (PBytes None [97]%N) None]])].
 Lemma full_of_sc_refuted :
-  let f := Leaf FOO [BAR; [42]%N] (Some (OIn, VLit (int_ 256))) in
-  eval true f w_entry_two = Ok true [(BAR, 0%N, BAR)] /\ eval false f w_entry_two = Err XValue.
+  let f := Or (Leaf FOO [] None) w_filter_bogus in
+  eval true f w_entry_bytes = Ok true [] /\ eval false f w_entry_bytes = Err XAttr.
 Proof. vm_compute. split; reflexivity. Qed.
 
 (* non-vacuity helpers *)
